@@ -30,7 +30,7 @@ class Run:
         self.hash_uses = 0
 
     def add(self, cond):
-        k = cond.get_id() if hasattr(cond, "get_id") else id(cond)
+        k = cond.get_id() if hasattr(cond, "get_id") else id(cond)      # cond stays alive in self.pc, so its id is not recycled
         if k not in self._seen:
             self._seen.add(k)
             self.pc.append(cond)
